@@ -454,7 +454,7 @@ def detached_output_scenario(seed=0, ms=2300):
             "label": "detached-output-%d" % ms}
 
 
-def late_success_scenario(nsib, seed=0, fail_first=True):
+def late_success_scenario(nsib, seed=0, fail_first=True, sig=None):
     """C06: in one group one executable exits non-zero and the others exit 0 ON THEIR OWN right after it, all of them
     before the run's join loop looks at any result (the loop is parked at its first run.join_next until every member
     has exited). Whatever order the results are joined in, the run has failed: a later group must be skipped."""
@@ -468,13 +468,13 @@ def late_success_scenario(nsib, seed=0, fail_first=True):
     for m in members:
         if m == bad:
             steps = [{"op": "out", "text": "bad member\n"}] + ([] if fail_first else [{"op": "wait", "tasks": [["build", o, "ended"] for o in members if o != bad], "timeout_ms": 8000}]) \
-                    + [{"op": "exit", "code": code}]
+                    + [{"op": "exit", "code": code} if sig is None else {"op": "signal", "sig": sig}]
         else:
             steps = ([{"op": "wait", "tasks": [["build", bad, "ended"]], "timeout_ms": 8000}] if fail_first else []) + [{"op": "out", "text": "good member %s\n" % m}, {"op": "exit", "code": 0}]
         scripts["build|" + m] = steps
     return {"targets": ts, "commands": ["build"], "kinds": {}, "fou": False, "scripts": scripts, "mode": "all",
             "hold": {"point": "run.join_next", "hit": 1, "until_ended": len(members)},
-            "label": "late-success-%d-%s" % (nsib, "failfirst" if fail_first else "faillast")}
+            "label": "late-success-%d-%s%s" % (nsib, "failfirst" if fail_first else "faillast", "" if sig is None else "-signal%d" % sig)}
 
 
 def impl_trace(rec, dbg):
